@@ -111,6 +111,7 @@ func drawBuf(t *kit.Tape, small bool) int {
 func (d *c31Dir) spawnWriter(s *sched, rc *kit.RunCtx, sc *network.SecureConn, raw *simconn) {
 	s.spawn("W"+d.name, func() {
 		for i, w := range d.writes {
+			s.yield(nil)
 			n, err := sc.Write(streamBytes(d.seed, d.written, w))
 			if n > 0 {
 				d.written += int64(n)
@@ -147,6 +148,9 @@ func (d *c31Dir) spawnReader(s *sched, rc *kit.RunCtx, sc *network.SecureConn) {
 			} else {
 				buf = make([]byte, size)
 			}
+			// the application does something between two reads: a scheduling point, so that the other tasks of
+			// the process (writers and readers of both directions) can run while a frame is only partly consumed
+			s.yield(nil)
 			n, err := sc.Read(buf)
 			d.reads++
 			rc.Event("%s Read(buf %d off %d) = %d err=%v", d.name, size, off, n, err != nil)
